@@ -49,6 +49,7 @@ func (w *World) runScheduled(spec SchedSpec, tasks []*Task, advProb float64) *Sc
 	res := &SchedResult{}
 	r := rand.New(rand.NewSource(spec.Seed ^ 0x5eed))
 	var wg sync.WaitGroup
+	verifsync.DebugDraws = os.Getenv("KDSIM_SCHEDTRACE") != ""
 	sim.SetScheduled(true)
 	for _, t := range tasks {
 		t := t
@@ -64,6 +65,8 @@ func (w *World) runScheduled(spec SchedSpec, tasks []*Task, advProb float64) *Sc
 			}
 			sim.OpBoundary(t.Name + ":end")
 		}()
+		// one at a time: the order in which the tasks register (and draw their priority) is the task order
+		synctest.Wait()
 	}
 	allDone := func() bool {
 		for _, t := range tasks {
@@ -110,6 +113,11 @@ func (w *World) runScheduled(spec SchedSpec, tasks []*Task, advProb float64) *Sc
 	res.Grants, res.Yields, res.Blocks = sim.Grants, sim.Yields, sim.Blocks
 	res.SchedHash = sim.SchedHash
 	res.Trace = sim.Trace
+	if os.Getenv("KDSIM_SCHEDTRACE") != "" {
+		for _, l := range sim.Trace {
+			fmt.Fprintln(os.Stderr, "SCHED", l)
+		}
+	}
 	if res.Stall != "" {
 		// leave the stuck goroutines where they are; the process ends after the run
 		return res
